@@ -783,3 +783,14 @@ def run(ctx):
     ctx.guard(r17_3)
     ctx.guard(r17_4)
     ctx.guard(r17_5)
+
+
+_run_before_r19_5 = run
+
+
+def run(ctx):
+    _run_before_r19_5(ctx)
+    # both declarations are solved by the same solver: the method the validation phase selects is the caller's (or the documented
+    # default), whatever the declared noise type and the Brownian motion supplied (rule of C19)
+    from . import c19
+    ctx.guard(c19.r19_5)
